@@ -79,7 +79,7 @@ def check(case, ctx):
     edge_on_ext = any(a in r['ext'] for r in spec['rules'] for e in r['edges'] for a in e['att'])
     if case.get('bin'):
         from . import c11
-        c11.check_bin_script(spec, ctx)
+        c11.check_bin_script(spec, ctx, methods=('newton',), flags=('',))      # one run: the interpreter modes are C11's business
     ctx.label('dead-rule-first' if 'D' in spec0['nonterminals'] else None, 'shared-factor' if shared else None, 'unreachable-factor' if unreachable_factor else None,
               'edge-on-external' if edge_on_ext else None)
     names = list(spec['terminals'])
